@@ -285,16 +285,9 @@ kf('N', r'^write::line::LineProgram::(generate_row|new) \|', ['C12', 'C01'],
    'same defect family as the P findings on write::LineProgram::generate_row / new: line deltas and the line encoding are cast between signed and unsigned without validation when reached from conversion',
    'findings/demo/tests/line_convert_op_advance.rs')
 
-kf('X-edges', r'^expr-ref\|(ImplicitPointer|VariableValue|EntryValue)$', ['C19'],
-   'FilterUnit::add_expression_refs has no arm for DW_OP_implicit_pointer / DW_OP_GNU_variable_value and does not scan the expression nested in DW_OP_entry_value, although '
-   'write::Expression::from converts their references: a required entry whose location uses one of them to reference an otherwise unreferenced entry makes the filtered conversion fail '
-   'with InvalidDebugInfoRef / InvalidUnitRef (the referenced entry was pruned)', 'findings/demo/tests/filter_implicit_pointer.rs')
-kf('D8-guard', r'^RangeIter::next\|Single$', ['C08'],
-   'Dwarf::die_ranges / unit_ranges yield the DW_AT_low_pc/high_pc range through RangeIter::Single without the emptiness / tombstone guard that list ranges pass: low_pc == high_pc yields '
-   'the empty range X..X, high_pc < low_pc an inverted one, and low_pc = -1 a range that begins at the tombstone', 'findings/demo/tests/die_ranges_empty_single.rs')
-kf('F-offset-id', r'^Dwarf\.(debug_macinfo|debug_macro|debug_names)$', ['C10'],
-   'Dwarf::lookup_offset_id omits the debug_macinfo, debug_macro and debug_names sections, so an offset identifier that came from one of them maps to None and format_error '
-   'prints "unexpected end of input" without the section and offset', 'findings/demo/tests/lookup_offset_id_sections.rs')
+# X-edges expr-ref|ImplicitPointer/VariableValue/EntryValue: repaired in /repo 97a1508 (see known_findings.json "fixed"); no suppression
+# D8-guard RangeIter::next|Single: repaired in /repo f512876; no suppression
+# F-offset-id debug_macinfo/debug_macro/debug_names: repaired in /repo 2ee02ca; no suppression
 
 
 def main():
